@@ -301,22 +301,26 @@ func (e *Evaluator) evalExpr(expr Expr) (*Cell, error) {
 					e.stackTop.locals[k] = v
 				}
 
+				// the frame is popped as soon as the body is done, whether it
+				// finished, failed or left with break/continue/next/return/exit
 				switch body := matchCase.Body.(type) {
 				case *StatementExpr:
 					val, err := e.evalExpr(body.Expr)
+					if popErr := e.popFrame(); popErr != nil {
+						return nil, popErr
+					}
 					if err != nil {
 						return nil, err
 					}
 					return val, nil
 				default:
 					err := e.evalStatement(body)
+					if popErr := e.popFrame(); popErr != nil {
+						return nil, popErr
+					}
 					if err != nil {
 						return nil, err
 					}
-				}
-
-				if err := e.popFrame(); err != nil {
-					return nil, err
 				}
 
 				return NewCell(NewValue(nil)), nil
@@ -427,6 +431,12 @@ func (e *Evaluator) callFunction(exp *ExprCall, fn *Cell, args []*Value) (*Cell,
 		}
 
 		err := e.evalStatement(f.Body)
+
+		// pop before looking at err, the body may have left with next/exit/etc.
+		if popErr := e.popFrame(); popErr != nil {
+			return nil, popErr
+		}
+
 		var retVal *Value
 		if err == errReturn {
 			retVal = e.returnVal
@@ -434,10 +444,6 @@ func (e *Evaluator) callFunction(exp *ExprCall, fn *Cell, args []*Value) (*Cell,
 			return nil, err
 		} else {
 			retVal = nil
-		}
-
-		if err := e.popFrame(); err != nil {
-			return nil, err
 		}
 
 		if retVal != nil {
